@@ -62,6 +62,9 @@ EDITS = [
     ("type_mappings-swap-targets", lambda s: s.update(type_mappings=True, tm_targets=(s["tm_targets"][1], s["tm_targets"][0]) if s["tm_targets"][0] != s["tm_targets"][1] else ("string", "number"))),
     ("default_parameter_case", lambda s: s.update(default_parameter_case="snake_case" if s["default_parameter_case"] == "camelCase" else "camelCase")),
     ("default_field_case", lambda s: s.update(default_field_case="camelCase" if s["default_field_case"] == "snake_case" else "snake_case")),
+    # spellings of the case settings that the tool does not know (it falls back to something): a corrected spelling is a changed setting
+    ("default_field_case-unknown-spelling", lambda s: s.update(default_field_case={"snake_case": "camel", "camel": "Snake_Case", "Snake_Case": "snake_case"}.get(s["default_field_case"], "camel"))),
+    ("default_parameter_case-unknown-spelling", lambda s: s.update(default_parameter_case={"camelCase": "snake", "snake": "camelcase", "camelcase": "camelCase"}.get(s["default_parameter_case"], "snake"))),
     ("visualize_deps", lambda s: s.update(visualize_deps=not s["visualize_deps"])),
     ("retarget-private-field", lambda s: s.update(private_field_type="String" if s["private_field_type"] == "u32" else "u32")),
     ("add-remove-pub(crate)-field", lambda s: s.update(crate_field=not s["crate_field"])),
